@@ -425,7 +425,11 @@ fn layout_class(items: &[Value]) -> Result<(Value, Encoding)> {
 				grows.push(insns.len());
 				insns.push(json!({"op": "ldc", "const": {"int": 1_000_000 + i}}));
 			}
-			"if" => insns.push(json!({"op": IF_OPS[(variant + i) % 16], "target": target(it, 0)?})),
+			// which of the sixteen conditionals: the item's n (1..16) if the model asks for one, else chosen by position
+			"if" => {
+				let want = it["n"].as_u64().unwrap_or(0) as usize;
+				insns.push(json!({"op": IF_OPS[if (1..=16).contains(&want) { want - 1 } else { (variant + i) % 16 }], "target": target(it, 0)?}));
+			},
 			"goto" => insns.push(json!({"op": "goto", "target": target(it, 0)?})),
 			"jsr" => insns.push(json!({"op": "jsr", "target": target(it, 0)?})),
 			"tsw" => {
